@@ -388,16 +388,35 @@ func ruleC03OlderFirst(r *Run, p *Program, rule string) {
 	}
 	r.universe(rule, n, 1)
 	// the comparator orders by sequenceID ascending
-	if cmp := p.Fn("(*pogreb.datalog).segmentsBySequenceID$1"); r.anchor(rule, "comparator of segmentsBySequenceID", cmp != nil) {
-		okc := false
-		for _, ret := range returnsOf(cmp) {
-			if bo, ok := strip(ret.Results[0]).(*ssa.BinOp); ok && bo.Op == token.LSS &&
-				isFieldLoad(bo.X, "pogreb.segment.sequenceID") && isFieldLoad(bo.Y, "pogreb.segment.sequenceID") {
-				// X indexes with i (param 0), Y with j (param 1)
-				okc = idxParam(bo.X) == 0 && idxParam(bo.Y) == 1
+	{
+		// the "less" function used for the ordering (a closure or a Less method): identified by comparing two sequenceID loads
+		var cmps []*ssa.Function
+		for _, g := range p.ModuleFuncs("") {
+			if g.Pkg != p.MainS {
+				continue
+			}
+			for _, ret := range returnsOf(g) {
+				if len(ret.Results) != 1 {
+					continue
+				}
+				if bo, ok := strip(ret.Results[0]).(*ssa.BinOp); ok && isFieldLoad(bo.X, "pogreb.segment.sequenceID") && isFieldLoad(bo.Y, "pogreb.segment.sequenceID") {
+					cmps = append(cmps, g)
+				}
 			}
 		}
-		r.check(okc, rule, "segmentsBySequenceID:ascending", p.Pos(cmp.Pos()), "segments are ordered by sequenceID ascending (oldest first)", "segmentsBySequenceID does not order by ascending sequenceID: recovery replays / compaction processes segments in the wrong order")
+		if r.anchor(rule, "comparison of two segment sequence ids (the ordering's less function)", len(cmps) > 0) {
+			for _, cmp := range cmps {
+				okc := false
+				for _, ret := range returnsOf(cmp) {
+					if bo, ok := strip(ret.Results[0]).(*ssa.BinOp); ok && bo.Op == token.LSS {
+						// X indexes with the first index parameter, Y with the second
+						ix, iy := idxParam(bo.X), idxParam(bo.Y)
+						okc = ix >= 0 && iy == ix+1
+					}
+				}
+				r.check(okc, rule, "segmentsBySequenceID:ascending", p.Pos(cmp.Pos()), "segments are ordered by sequenceID ascending (oldest first)", "the segment ordering does not sort by ascending sequenceID: recovery replays / compaction processes segments in the wrong order")
+			}
+		}
 	}
 	// Compact iterates the picked slice front to back: a range loop (index from 0 upwards) over the result
 	if g := p.Fn("(*pogreb.DB).Compact"); r.anchor(rule, "(*pogreb.DB).Compact", g != nil) {
@@ -712,81 +731,105 @@ func ruleC12(r *Run, p *Program, rule string) {
 	if nev >= 6 {
 		r.ok(rule+".maintenance-held", funcKey(f), p.Pos(f.Pos()), fmt.Sprintf("all %d file-system calls, guarded accesses and DB.mu acquisitions of Backup happen with maintenanceMu held", nev), true)
 	}
-	// capture: map updates (captured sizes) and appends to the segment list happen under DB.mu
+	// capture: map updates (captured sizes) happen under DB.mu, in Backup or a helper extracted from it
 	ncap := 0
 	for nd := range w.Reached {
-		if nd.Ctx.Parent != nil {
+		mu, ok := nd.In.(*ssa.MapUpdate)
+		if !ok {
 			continue
 		}
-		if mu, ok := nd.In.(*ssa.MapUpdate); ok {
-			ncap++
-			held := mustHold(w, nd)
-			r.check(holdsRead(held), rule+".capture-locked", funcKey(f)+":size-capture", p.Pos(mu.Pos()), "the copy bounds are captured with DB.mu held", "the size of an active segment is captured without DB.mu held: the bound may include a half-written record or miss an acknowledged one")
-			// the captured value is file.size of the segment whose Full flag was tested false
-			isSize := isFieldLoad(mu.Value, "pogreb.file.size")
-			notFull := controlledBy(f, mu, func(c *Cond) bool {
-				return c.Op == token.ILLEGAL && !c.Pos && isFieldLoad(c.V, "pogreb.segmentMeta.Full")
-			})
-			r.check(isSize && notFull, rule+".capture-locked", funcKey(f)+":captures-size-of-active", p.Pos(mu.Pos()), "what is captured is file.size of segments that are not full", "the captured copy bound is not the size of the segments that are still being appended to")
-		}
+		ncap++
+		g := nd.Ctx.Fn
+		held := mustHold(w, nd)
+		r.check(holdsRead(held), rule+".capture-locked", funcKey(f)+":size-capture", p.Pos(mu.Pos()), "the copy bounds are captured with DB.mu held", "the size of an active segment is captured without DB.mu held: the bound may include a half-written record or miss an acknowledged one")
+		isSize := isFieldLoad(mu.Value, "pogreb.file.size")
+		notFull := controlledBy(g, mu, func(c *Cond) bool {
+			return c.Op == token.ILLEGAL && !c.Pos && isFieldLoad(c.V, "pogreb.segmentMeta.Full")
+		})
+		r.check(isSize && notFull, rule+".capture-locked", funcKey(f)+":captures-size-of-active", p.Pos(mu.Pos()), "what is captured is file.size of segments that are not full", "the captured copy bound is not the size of the segments that are still being appended to")
 	}
 	r.universe(rule+".capture-locked", ncap, 1)
 	// the backup covers every open segment: the list is built from segmentsBySequenceID() and no element is skipped
 	{
-		var app ssa.Instruction
+		var work ssa.Instruction
 		fromOrder := false
-		instrsOf(f, func(in ssa.Instruction) {
-			c, ok := in.(*ssa.Call)
-			if !ok {
-				return
-			}
-			if b, ok := c.Call.Value.(*ssa.Builtin); ok && b.Name() == "append" && strings.Contains(c.Type().String(), "segment") && inCycle(c.Block()) {
-				app = c
-			}
-			if calleeKey(&c.Call) == "(*pogreb.datalog).segmentsBySequenceID" {
-				fromOrder = true
-			}
-		})
-		if r.anchor(rule+".all-segments", "capture loop appending to the segment list in Backup", app != nil) {
-			r.check(fromOrder, rule+".all-segments", funcKey(f)+":source", p.Pos(app.Pos()), "the segments to copy are taken from segmentsBySequenceID() (every non-nil entry of the table)", "Backup does not enumerate the segments through segmentsBySequenceID(): after compaction freed a lower id the table has holes and a hand-written scan can miss the segments behind them")
-			checkSkipsOnly(r, p, rule+".all-segments", funcKey(f)+":no-skip", f, app, func(c *Cond) bool { return false },
+		for _, g := range deepFuncs(p, f) {
+			instrsOf(g, func(in ssa.Instruction) {
+				switch x := in.(type) {
+				case *ssa.Call:
+					if b, ok := x.Call.Value.(*ssa.Builtin); ok && b.Name() == "append" && strings.Contains(x.Type().String(), "segment") && inCycle(x.Block()) && funcKey(g) != "(*pogreb.datalog).segmentsBySequenceID" {
+						work = x
+					}
+					if calleeKey(&x.Call) == "(*pogreb.datalog).segmentsBySequenceID" && funcKey(g) != "(*pogreb.datalog).segmentsBySequenceID" {
+						fromOrder = true
+					}
+				case *ssa.Store:
+					if ia, ok := x.Addr.(*ssa.IndexAddr); ok && strings.Contains(ia.X.Type().String(), "[]*github.com/akrylysov/pogreb.segment") && inCycle(x.Block()) && funcKey(g) != "(*pogreb.datalog).segmentsBySequenceID" {
+						if _, isNil := x.Val.(*ssa.Const); !isNil {
+							work = x
+						}
+					}
+				}
+			})
+		}
+		if r.anchor(rule+".all-segments", "capture loop building the list of segments to copy (in Backup or a helper)", work != nil) {
+			r.check(fromOrder, rule+".all-segments", funcKey(f)+":source", p.Pos(work.Pos()), "the segments to copy are taken from segmentsBySequenceID() (every non-nil entry of the table)", "Backup does not enumerate the segments through segmentsBySequenceID(): after compaction freed a lower id the table has holes and a hand-written scan can miss the segments behind them")
+			checkSkipsOnly(r, p, rule+".all-segments", funcKey(f)+":no-skip", work.Parent(), work, func(c *Cond) bool { return false },
 				"every enumerated segment is added to the list of segments to copy", "Backup's capture loop can skip or stop before a segment: the backup misses part of the log")
 		}
 	}
-	// bounded copy
-	var copyN, copyAll *ssa.Call
+	// bounded copy (the copy may sit in a helper: parameters are resolved to the caller's arguments)
+	var copyN, copyAll *Node
 	var lookup *ssa.Lookup
-	instrsOf(f, func(in ssa.Instruction) {
-		switch x := in.(type) {
+	for nd := range w.Reached {
+		nd := nd
+		switch x := nd.In.(type) {
 		case *ssa.Call:
 			switch calleeKey(&x.Call) {
 			case "io.CopyN":
-				copyN = x
+				copyN = &nd
 			case "io.Copy":
-				copyAll = x
+				copyAll = &nd
 			}
 		case *ssa.Lookup:
 			if x.CommaOk {
 				lookup = x
 			}
 		}
-	})
-	if r.anchor(rule+".bounded-copy", "io.Copy, io.CopyN and the captured-size lookup in Backup", copyN != nil && copyAll != nil && lookup != nil) {
-		isOK := func(pos bool) func(c *Cond) bool {
+	}
+	if r.anchor(rule+".bounded-copy", "io.Copy, io.CopyN and the captured-size lookup under Backup", copyN != nil && copyAll != nil && lookup != nil) {
+		isOK := func(ctx *Ctx, pos bool) func(c *Cond) bool {
 			return func(c *Cond) bool {
 				if c.Op != token.ILLEGAL || c.Pos != pos {
 					return false
 				}
-				ex, ok := strip(c.V).(*ssa.Extract)
+				_, v := resolveParam(ctx, c.V)
+				ex, ok := strip(v).(*ssa.Extract)
 				return ok && ex.Tuple == ssa.Value(lookup) && ex.Index == 1
 			}
 		}
-		r.check(controlledBy(f, copyAll, isOK(false)), rule+".bounded-copy", funcKey(f)+":unbounded-only-sealed", p.Pos(copyAll.Pos()), "io.Copy (whole file) is used only for segments absent from the captured-size map (sealed at capture)", "a segment that was active at capture can be copied whole: records written after the snapshot instant leak into the backup")
-		cnt := false
-		if ex, ok := strip(copyN.Call.Args[2]).(*ssa.Extract); ok && ex.Tuple == ssa.Value(lookup) && ex.Index == 0 {
-			cnt = true
+		// the condition may be tested in the helper (on a parameter) or at the call site of the helper
+		ctl := func(nd *Node, pos bool) bool {
+			var at ssa.Instruction = nd.In
+			for c := nd.Ctx; c != nil; c = c.Parent {
+				if controlledBy(c.Fn, at, isOK(c, pos)) {
+					return true
+				}
+				at = c.Site
+				if at == nil {
+					break
+				}
+			}
+			return false
 		}
-		r.check(cnt && controlledBy(f, copyN, isOK(true)), rule+".bounded-copy", funcKey(f)+":bounded-by-capture", p.Pos(copyN.Pos()), "active segments are copied with io.CopyN bounded by the captured size", "the bounded copy is not limited by the size captured under the lock")
+		r.check(ctl(copyAll, false), rule+".bounded-copy", funcKey(f)+":unbounded-only-sealed", p.Pos(copyAll.In.Pos()), "io.Copy (whole file) is used only for segments absent from the captured-size map (sealed at capture)", "a segment that was active at capture can be copied whole: records written after the snapshot instant leak into the backup")
+		cnt := false
+		if _, v := resolveParam(copyN.Ctx, copyN.In.(*ssa.Call).Call.Args[2]); true {
+			if ex, ok := strip(v).(*ssa.Extract); ok && ex.Tuple == ssa.Value(lookup) && ex.Index == 0 {
+				cnt = true
+			}
+		}
+		r.check(cnt && ctl(copyN, true), rule+".bounded-copy", funcKey(f)+":bounded-by-capture", p.Pos(copyN.In.Pos()), "active segments are copied with io.CopyN bounded by the captured size", "the bounded copy is not limited by the size captured under the lock")
 	}
 	// lock file in the backup
 	okLock := false
@@ -801,7 +844,7 @@ func ruleC12(r *Run, p *Program, rule string) {
 	wl.Run(root, nil)
 	okLock = true
 	for nd := range wl.Reached {
-		if isRootSuccessReturn(nd) && !isRootFailureForward(wl, nd) {
+		if wl.rootSuccess(nd) {
 			okLock = false
 			r.bad(rule+".lock-file", funcKey(f), p.Pos(instrPos(nd.In)), "Backup can return nil without creating the lock file in the backup directory: opening the backup would trust a non-existent index instead of rebuilding it from the copied log", wl.PathTo(nd)...)
 		}
@@ -828,4 +871,22 @@ func ruleC12(r *Run, p *Program, rule string) {
 	r.universe(rule+".source-read-only", nsrc, 1)
 	// the segment list used by the copy loop is the one captured under the lock: no read of datalog.segments after the RUnlock
 	// (covered by maintenance-held + C07/C10.guarded: reading datalog.segments needs DB.mu)
+}
+
+// resolveParam follows a parameter to the argument passed by the caller along the call string.
+func resolveParam(ctx *Ctx, v ssa.Value) (*Ctx, ssa.Value) {
+	for d := 0; d < 10; d++ {
+		pa, ok := strip(v).(*ssa.Parameter)
+		if !ok || ctx == nil || ctx.Parent == nil || ctx.Site == nil || ctx.Fn != pa.Parent() {
+			return ctx, v
+		}
+		cc := callOf(ctx.Site)
+		idx := paramIndex(pa)
+		if cc.IsInvoke() || idx < 0 || idx >= len(cc.Args) {
+			return ctx, v
+		}
+		v = cc.Args[idx]
+		ctx = ctx.Parent
+	}
+	return ctx, v
 }
